@@ -16,12 +16,12 @@ use std::path::PathBuf;
 use std::process::Command;
 use std::time::Instant;
 
-pub const RULE: &str = "per configuration {none, libm, mm, std}: floor/abs on every 256th f32 bit pattern (thorough: all 2^32) plus every integer +-1 ulp in +-2^18 (2^24) and specials; \
+pub const RULE: &str = "per configuration {none, libm, mm, std, libm+mm, std+mm} (the last two: a second backend merely compiled in, as cargo's feature unification does): floor/abs on every 256th f32 bit pattern (thorough: all 2^32) plus every integer +-1 ulp in +-2^18 (2^24) and specials; \
 rem_euclid on exact multiples +-1 ulp and log-uniform magnitudes x 7 moduli; sqrt/recip_sqrt on 2^18 (2^22) log-spaced inputs in [1e-30,1e30]; sin/cos/tan dense in [-4pi,4pi] + random to +-100; \
 asin/acos dense in [-1,1] with the ends +-ulp; atan2 on a polar grid with axes and (0,0); powf/exp on moderate domains; consequences: C04 half-pixel lattice (531441 triangles, exact oracle), sampler addressing, wrap, normalize. \
 Non-trivial = an input where the backend's result differs from the f32-rounded std result, or a negative integer / negative-multiple input; distinct by (function, input bits).";
 
-pub const CONFIGS: [&str; 4] = ["none", "libm", "mm", "std"];
+pub const CONFIGS: [&str; 6] = ["none", "libm", "mm", "std", "libm-mm", "std-mm"];
 
 #[derive(Clone, Debug, Serialize, Deserialize)]
 pub struct FpCase {
@@ -249,7 +249,7 @@ pub fn run(cx: &mut Ctx) {
         }
     }
     obs.sample(|| json!({"lattice_coverage_hash_std": std_hash}));
-    cx.report("cross-config-lattice", obs, true, t0.elapsed().as_secs_f64(), "hash comparison over the four builds");
+    cx.report("cross-config-lattice", obs, true, t0.elapsed().as_secs_f64(), "hash comparison over the six builds");
 }
 
 pub fn replay(_sub: &str, case: &Value) -> Check {
